@@ -154,8 +154,19 @@ type boundDoc struct {
 
 func (in *Interp) bindDoc(content *smt.Term, d *boundDoc) { in.Ghost["tree:"+content.S] = d }
 func (in *Interp) lookupDoc(content *smt.Term) *boundDoc {
-	d, _ := in.Ghost["tree:"+content.S].(*boundDoc)
-	return d
+	if d, ok := in.Ghost["tree:"+content.S].(*boundDoc); ok {
+		return d
+	}
+	// take(X, L): the first L bytes of X — the whole of X when it fits (then it parses like X); a truncated
+	// document does not parse
+	if content.Op == "take" && len(content.Args) == 2 {
+		x, l := content.Args[0], content.Args[1]
+		if in.Branch(smt.BVSle(BLen(x), l)) {
+			return in.lookupDoc(x)
+		}
+		return nil
+	}
+	return nil
 }
 
 func (in *Interp) noteList(key, v string) {
@@ -275,7 +286,26 @@ func init() {
 		return nilError()
 	}
 
+	models["encoding/xml.NewDecoder"] = func(in *Interp, fn *ssa.Function, a []Value) Value {
+		dt := derefType(fn.Signature.Results().At(0).Type())
+		o := in.newObject(dt, zeroValue(dt), "xml.Decoder")
+		o.Ghost = map[string]interface{}{"src": a[0]}
+		return &Ptr{Obj: o}
+	}
+	models["(*encoding/xml.Decoder).Decode"] = func(in *Interp, fn *ssa.Function, a []Value) Value {
+		dp := a[0].(*Ptr)
+		src := ghostOf(dp.Obj.Ghost["src"].(Value))
+		if ghostKind(src) != "bytesreader" {
+			in.end("unmodelled", "xml.Decoder over reader kind %q at %s", ghostKind(src), in.where())
+		}
+		dt := derefType(fn.Signature.Recv().Type())
+		cr := in.load(dp).(*StructV).F[fieldIndex(dt, "CharsetReader")]
+		return in.xmlUnmarshal(in.stringOfBytes(src.Ghost["data"].(*SliceV)), a[1], !isNilValue(cr))
+	}
 	models["encoding/xml.Unmarshal"] = func(in *Interp, fn *ssa.Function, a []Value) Value {
+		return in.xmlUnmarshal(in.stringOfBytes(a[0].(*SliceV)), a[1], false)
+	}
+	_ = func(in *Interp, fn *ssa.Function, a []Value) Value {
 		content := in.stringOfBytes(a[0].(*SliceV))
 		ifc, _ := a[1].(*Iface)
 		in.event("xml.Unmarshal")
@@ -299,6 +329,31 @@ func init() {
 		}
 		return nilError()
 	}
+}
+
+// xmlUnmarshal: the model of Unmarshal / Decoder.Decode (charsetReader: a CharsetReader is installed, so a
+// declared non-UTF-8 encoding is not an error; the installed reader is assumed to pass bytes through).
+func (in *Interp) xmlUnmarshal(content *smt.Term, target Value, charsetReader bool) Value {
+	ifc, _ := target.(*Iface)
+	in.event("xml.Unmarshal")
+	in.X.noteAssumption("encoding/xml.Unmarshal / Decoder.Decode modelled from the struct tags read from /repo's types at run time (XMLName, attr, a>b>c paths, chardata concatenation, slices append, pointer reuse, last attribute wins, typed attributes may fail); rejects documents declaring a non-UTF-8 encoding unless a CharsetReader is installed")
+	if ifc == nil || ifc.T == nil {
+		return in.opaqueError("xml-unmarshal-nil")
+	}
+	tp, _ := ifc.V.(*Ptr)
+	pt, isPtr := ifc.T.Underlying().(*types.Pointer)
+	if tp == nil || !isPtr {
+		return in.opaqueError("xml-unmarshal-nonpointer")
+	}
+	d := in.lookupDoc(content)
+	if d == nil || d.Root == nil || (d.OtherEncoding && !charsetReader) {
+		return in.opaqueError("xml-unmarshal")
+	}
+	um := &xmlm{in: in}
+	if !um.decodeInto(d.Root, tp, pt.Elem(), nil) {
+		return in.opaqueError("xml-unmarshal:" + um.why)
+	}
+	return nilError()
 }
 
 func (in *Interp) lookupMethodByName(t types.Type, name string) *ssa.Function {
